@@ -16,6 +16,7 @@ mod shm;
 mod timed;
 mod util;
 mod vanish;
+mod wake;
 
 fn main() {
     let args: Vec<String> = std::env::args().collect();
@@ -32,6 +33,7 @@ fn main() {
         "codec" => codec::run(),
         "prog" => prog::run(),
         "res" => res::run(),
+        "wake" => wake::run(),
         "server" => server::run(),
         "client" => server::run_client(&args[2..]),
         "timed" => timed::run(),
